@@ -228,6 +228,12 @@ def run_models(progs):
             "spec": {"cls": "ok" if f[5] == "1" else "error", "out": sev},
             "safe": f[7] == "1", "shapes": {"#11": f[8] == "1", "#43": f[9] == "1", "#44": f[10] == "1"},
         })
+        if len(f) >= 16:       # machine with the three proposed repairs (coq/C06/Fixed.v), for diagnosis only
+            fev = [x for x in f[15].split(";") if x]
+            res[-1]["fixed"] = {"cls": "ok" if f[11] == "1" else "error",
+                                "out": [x for x in fev if not x.startswith("imb ")],
+                                "imb": [tuple(int(y) for y in x.split()[1:]) for x in fev if x.startswith("imb ")],
+                                "depths": (int(f[12]), int(f[13]), int(f[14])) if f[11] == "1" else None}
     return res
 
 
@@ -359,4 +365,306 @@ def random_program(rng, maxdepth=4, safe=False, nfuncs=None):
                 else:
                     out.append(("L", rng.choice([1, 2, 2, 3]), blk(fi, depth - 1, True, False)))
         return out
-    return renumber([blk(fi, maxdepth - (1 if fi else 0), False, True) for fi in range(nf)])
+    bodies = [blk(fi, maxdepth - (1 if fi else 0), False, True) for fi in range(nf)]
+    # every function is called from a lower one (top level, before any exit statement)
+    for fi in range(1, nf):
+        if not any(fi in _calls(b) for b in bodies[:fi]):
+            host = bodies[rng.randint(0, fi - 1)]
+            lim = next((j for j, s in enumerate(host) if s[0] in "rbk"), len(host))
+            host.insert(rng.randint(0, lim), ("c", fi))
+    return renumber(bodies)
+
+
+# ------------------------------------------------------------------ shrinking
+def _variants_block(b):
+    """Smaller variants of a statement list: drop one statement, unwrap one container, shrink inside."""
+    for i, s in enumerate(b):
+        yield b[:i] + b[i + 1:]
+        t = s[0]
+        if t == "B":
+            yield b[:i] + s[1] + b[i + 1:]
+            for v in _variants_block(s[1]):
+                yield b[:i] + [("B", v)] + b[i + 1:]
+        elif t == "I":
+            yield b[:i] + s[2] + b[i + 1:]
+            if s[3]:
+                yield b[:i] + [("I", s[1], s[2], [])] + b[i + 1:]
+            if s[1] not in ("T", "F"):
+                yield b[:i] + [("I", "T", s[2], s[3])] + b[i + 1:]
+            for v in _variants_block(s[2]):
+                yield b[:i] + [("I", s[1], v, s[3])] + b[i + 1:]
+            for v in _variants_block(s[3]):
+                yield b[:i] + [("I", s[1], s[2], v)] + b[i + 1:]
+        elif t == "L":
+            if s[1] > 1:
+                yield b[:i] + [("L", s[1] - 1, s[2])] + b[i + 1:]
+            for v in _variants_block(s[2]):
+                yield b[:i] + [("L", s[1], v)] + b[i + 1:]
+
+
+def _calls(b):
+    out = set()
+    for s in b:
+        if s[0] == "c":
+            out.add(s[1])
+        elif s[0] == "B":
+            out |= _calls(s[1])
+        elif s[0] == "I":
+            out |= _calls(s[2]) | _calls(s[3])
+        elif s[0] == "L":
+            out |= _calls(s[2])
+    return out
+
+
+def variants(p):
+    for fi in range(len(p)):
+        for v in _variants_block(p[fi]):
+            yield p[:fi] + [v] + p[fi + 1:]
+    # drop a trailing function nobody calls
+    if len(p) > 1 and (len(p) - 1) not in set().union(*[_calls(b) for b in p]):
+        yield p[:-1]
+
+
+def size(p):
+    return len(ser_prog(p).split())
+
+
+def shrink(p, sty, impl_dir, bad, budget=400):
+    """Greedy delta debugging on the skeleton, keeping `bad(p)` true."""
+    cur = p
+    steps = 0
+    changed = True
+    while changed and steps < budget:
+        changed = False
+        for v in variants(cur):
+            steps += 1
+            if steps >= budget:
+                break
+            if size(v) < size(cur) and bad(v):
+                cur = v
+                changed = True
+                break
+    if sty and bad_with(cur, 0, bad):
+        return cur, 0
+    return cur, sty
+
+
+def bad_with(p, sty, bad):
+    try:
+        return bad(p, sty)
+    except TypeError:
+        return False
+
+
+# ------------------------------------------------------------------ fixed extra programs
+NONWF = ["o1 b", "o1 c1 m2 | b", "L2 { c1 m1 } m2 | d1 b", "L2 { o5 c1 m1 } m2 | o1 k", "o1 { d2 k } m3",
+         "c1 m1 | { o1 b } m2"]
+
+DOC6 = PRELUDE + """int g() { println("mark", 9); return 0; }
+int f1() { R o1(1); println("reg", 2); defer println("defer", 2); return g(); }
+void main() { f1(); println("mark", 10); }
+"""
+DOC6_EXPECT = ["ctor 1", "reg 2", "defer 2", "dtor 1", "mark 9", "mark 10"]
+
+
+def load_cases(path):
+    if not os.path.exists(path):
+        return []
+    return [(parse_prog(c["prog"]), int(c.get("sty", 0))) for c in json.load(open(path))]
+
+
+# ------------------------------------------------------------------ main
+def run(rep):
+    seed, tier = rep.seed, rep.tier
+    thorough = tier == "thorough"
+    cq = common.coq_check_props(PROP)
+    extra = ""
+    if thorough and cq["ok"]:
+        rc, o, e = common.sh(["coqchk", "-silent", "-o", "-Q", ".", "Cb", "Cb.C06.Properties_C06"], cwd=common.COQ, timeout=900)
+        m = re.search(r"\* Axioms:\s*(.*?)\n\s*\n", o + e, re.S)
+        rep.coverage["coqchk"] = {"rc": rc, "axioms": (m.group(1).strip() if m else "?")}
+        extra = " + coqchk -o of the closure"
+        if rc != 0:
+            cq["ok"] = False
+            cq["failed_theorem"] = "coqchk"
+            cq["log"] += (o + e)[-1500:]
+    common.proof_coverage(rep, cq, extra)
+    if not cq["ok"]:
+        rep.violation("proof", {"theorem": cq["failed_theorem"], "log": cq["log"][-3000:]},
+                      "proof obligation %s no longer checks" % cq["failed_theorem"], True)
+    common.ensure_model(PROP)
+    impl = common.build_impl("plain")
+
+    cases, origin = [], []
+    for p, sty in load_cases(os.path.join(common.VERIF, "corpus", "c06.json")):
+        cases.append((p, sty)); origin.append("corpus")
+    # (1) exhaustive small skeletons: main (+ one callee), every exit kind at every position
+    budget, depth = (5, 3) if thorough else (4, 3)
+    n_exh = 0
+    for k, p in enumerate(exhaustive_programs(budget, depth)):
+        cases.append((p, 0 if k % 3 == 0 else 1 + (k * 7919 + seed) % 1000)); origin.append("exhaustive"); n_exh += 1
+    # (2) random deeper skeletons, half of them from the conforming fragment (avoidance predicate)
+    n_rand = 150000 if thorough else 3000
+    for k in range(n_rand):
+        rng = rng_for(seed, "c06-rand", k)
+        safe = k % 2 == 0
+        cases.append((random_program(rng, rng.choice([3, 4, 4]), safe=safe), rng.randint(1, 10 ** 6)))
+        origin.append("random-safe" if safe else "random-any")
+    # (3) break/continue escaping a function (run-time error or caught by a caller's loop)
+    for t in NONWF:
+        cases.append((parse_prog(t), 0)); origin.append("escaping-break")
+
+    models = run_models([p for p, _ in cases])
+    impls = common.pmap(lambda c: run_impl(impl, c[0], c[1]), cases)
+
+    hist, shape_hist = {}, {}
+    n_conf = n_safe = n_fuel = 0
+    distinct = set()
+    nontrivial = 0
+    bad, inconsistent = [], []
+    for (p, sty), o, m, i in zip(cases, origin, models, impls):
+        hist[o] = hist.get(o, 0) + 1
+        key = ser_prog(p)
+        first = key not in distinct
+        distinct.add(key)
+        if m["fuel"]:
+            n_fuel += 1
+            continue
+        conf = conforming(m)
+        n_conf += conf
+        n_safe += m["safe"]
+        if first and any(not x.startswith("mark") for x in m["mech"]["out"]):
+            nontrivial += 1
+        if not conf:
+            lab = "+".join(k for k, v in sorted(m["shapes"].items()) if v) or "none"
+            shape_hist[lab] = shape_hist.get(lab, 0) + 1
+            if lab == "none" and m["mech"]["cls"] == "ok":
+                inconsistent.append((p, sty, m))
+        if m["safe"] and not conf:
+            inconsistent.append((p, sty, m))
+        if o == "random-safe" and not m["safe"]:
+            inconsistent.append((p, sty, m))
+        if not impl_matches_mech(i, m["mech"]):
+            bad.append((p, sty, o, m, i))
+
+    rep.coverage.update({
+        "evaluations": len(cases), "distinct_nontrivial": nontrivial,
+        "rule": "real interpreter (main, hook CB_VERIF_STACKS) vs extracted Coq Mech model on the same skeleton program: stdout transcript, "
+                "every CBV call-imbalance line and the final CBV stacks depths must be equal - for every program, conforming or not; "
+                "distinct = distinct skeletons; non-trivial = the transcript contains at least one constructor/destructor/defer event",
+        "exhaustive": True,
+        "exhaustive_space": "all programs main(+one callee) with <= %d statements, nesting <= %d over {object, defer, call, return, break, continue, "
+                            "block, if, loop(2)} without dead code (%d programs)" % (budget, depth, n_exh),
+        "input_distribution": hist,
+        "model_conforming_to_spec": n_conf, "in_proved_fragment": n_safe,
+        "nonconforming_by_known_shape": shape_hist,
+        "avoided_known_findings": "main stream = programs of the proved fragment (safe_prog, extracted): %d; all others are compared "
+                                  "with the Mech model only and labelled by the defect shape they contain" % n_safe,
+        "fuel_exhausted": n_fuel,
+        "samples": [{"prog": ser_prog(cases[j][0]), "sty": cases[j][1], "impl": impls[j], "spec_out": models[j]["spec"]["out"]}
+                    for j in (min(len(cases) - 1, n_exh // 2), len(cases) - len(NONWF) - 7)],
+    })
+    for p, sty, m in inconsistent[:3]:
+        rep.violation("model-consistency", {"prog": ser_prog(p), "sty": sty, "model": m},
+                      "extracted model contradicts its own theorems/labels on %s" % ser_prog(p), True)
+
+    # disagreements: prefer a conforming-fragment program on which the implementation breaks the Spec visibly
+    def kind(i, sp):
+        if sp["cls"] != i["cls"] or sp["out"] != i["out"]:
+            return "transcript"
+        if sp["cls"] == "ok" and (i["imb"] or i["depths"] != (0, 1, 1)):
+            return "stacks"
+        return None
+
+    def rank(b):
+        p, sty, o, m, i = b
+        k = kind(i, m["spec"])
+        return (not m["safe"], {"transcript": 0, "stacks": 1, None: 2}[k], size(p))
+    bad.sort(key=rank)
+    rep.coverage["disagreements"] = len(bad)
+    reported = set()
+    for p, sty, o, m, i in bad[:4]:
+        want = kind(i, m["spec"])
+
+        def still_bad(q, s=sty):
+            mm = run_models([q])[0]
+            if mm["fuel"]:
+                return False
+            ii = run_impl(impl, q, s)
+            if impl_matches_mech(ii, mm["mech"]):
+                return False
+            return kind(ii, mm["spec"]) == want
+        q, s2 = shrink(p, sty, impl, still_bad)
+        mm = run_models([q])[0]
+        ii = run_impl(impl, q, s2)
+        if impl_matches_mech(ii, mm["mech"]):        # style-dependent: keep the original style
+            s2 = sty
+            ii = run_impl(impl, q, s2)
+        if (ser_prog(q), kind(ii, mm["spec"])) in reported:
+            continue
+        reported.add((ser_prog(q), kind(ii, mm["spec"])))
+        spec_fail = kind(ii, mm["spec"]) is not None
+        verdict = ("implementation violates the structural cleanup order: expected %r with balanced stacks, got %r imb=%r depths=%r"
+                   % (mm["spec"]["out"], ii["out"], ii["imb"], ii["depths"])) if spec_fail else \
+            "implementation agrees with the Spec on this input but not with the proved model"
+        rep.violation("corr", {"prog": ser_prog(q), "sty": s2, "cb": to_cb(q, s2), "impl": ii, "mech": mm["mech"], "spec": mm["spec"],
+                               "safe": mm["safe"], "shapes": mm["shapes"], "origin": o,
+                               "impl_equals_repaired_machine_of_Fixed_v": ("fixed" in mm and impl_matches_mech(ii, mm["fixed"])),
+                               "broken": "correspondence Mech model = interpreter cleanup stacks (carrier of every C06 theorem)"},
+                      "interpreter and proved cleanup model disagree on `%s` (%s)" % (ser_prog(q), verdict),
+                      no_failing_input=not spec_fail)
+
+    # documented behaviour #6: cleanup precedes the evaluation of the return operand
+    rc, o, e = common.run_cb(impl, DOC6, env={"CB_VERIF_STACKS": "1"})
+    got = [l for l in o.split("\n") if l]
+    rep.coverage["doc6_return_operand_after_cleanup"] = got == DOC6_EXPECT
+    if got != DOC6_EXPECT:
+        rep.violation("doc6", {"cb": DOC6, "stdout": got, "expected": DOC6_EXPECT, "rc": rc},
+                      "return g(): documented order (docs/spec.md:1634: defers, destructors, then evaluation of the "
+                      "return operand) not observed: got %r" % got)
+
+    # known findings: replay each stored input against the Spec (and the model against the implementation)
+    for f in common.known_findings(PROP):
+        p = parse_prog(f["replay"]["prog"])
+        sty = int(f["replay"].get("sty", 0))
+        m = run_models([p])[0]
+        i = run_impl(impl, p, sty)
+        exp = f["replay"]["expected"]
+        spec_now = {"cls": "ok", "out": exp["out"]}
+        if m["spec"]["out"] != exp["out"]:
+            rep.violation("known-replay", {"id": f["id"], "spec": m["spec"], "stored": exp},
+                          "stored expectation of known finding %s is not what the Spec says" % f["id"], True)
+        if not impl_matches_spec(i, spec_now):
+            rep.known(f["id"], f["what_fails"])
+        else:
+            rep.notes.append("known finding %s no longer reproduces (fixed?)" % f["id"])
+        if not impl_matches_mech(i, m["mech"]):
+            rep.violation("corr-known", {"id": f["id"], "prog": f["replay"]["prog"], "impl": i, "mech": m["mech"]},
+                          "model and implementation disagree on known-finding replay " + f["id"],
+                          impl_matches_spec(i, spec_now))
+    rep.assumptions += [
+        "the Mech model is tied to the C++ by differential testing (transcript + hook depths), not by proof",
+        "objects and defers have constant ids, return operands are constants, if/loop bodies are braced, no recursion, no yield",
+        "skeletons are printed to Cb text by the Python printer (for/while, void/int, call statement/initialiser chosen per case)",
+    ]
+
+
+def replay(path):
+    data = json.load(open(path))
+    c = data["case"]
+    if "prog" not in c:
+        print(json.dumps(c, indent=1)[:4000])
+        return 1
+    common.ensure_model(PROP)
+    impl = common.build_impl("plain")
+    p = parse_prog(c["prog"])
+    sty = int(c.get("sty", 0))
+    m = run_models([p])[0]
+    i = run_impl(impl, p, sty)
+    print(to_cb(p, sty))
+    print("impl:", i)
+    print("mech:", m["mech"])
+    print("spec:", m["spec"])
+    ok = impl_matches_mech(i, m["mech"])
+    print("agree with model:", ok, " agree with spec:", impl_matches_spec(i, m["spec"]))
+    return 0 if ok else 1
